@@ -8,7 +8,7 @@ ID = "C20"
 LEVEL = "exploration"
 TECHNIQUE = "deterministic simulation: seeded step scheduler over the real SmartCloudSync; request/un-request/listing calls interleaved with user operations and engine steps; requested-set reference model"
 RULE = ("each run = flavour pair (oo, po), optional auto-sync predicate (by file name), history of 2-9 operations drawn from: remote create/overwrite/delete/mkdir, local create, local overwrite of a present "
-        "file, application calls smart_sync_path / smart_sync_oid / smart_unsync_path / smart_unsync_oid / smart_listdir_path, interleaved with engine steps (eager|batched|split). Reference model: "
+        "file, application calls smart_sync_path / smart_sync_oid / smart_unsync_path / smart_unsync_oid / smart_listdir_path, interleaved with engine steps (eager|batched|split); in a fifth of the runs the providers raise temporary errors at 2-5 % of the engine's calls until the epilogue (the oracles apply once the faults have stopped). Reference model: "
         "requested = explicit requests + predicate matches + locally created, minus un-requests. Invariants after every step and call: every local FILE is in the requested set (or was created "
         "locally); the engine never issues a remote delete (users never delete locally in this family). At quiet: folders are mirrored; every requested file that exists remotely is local with the same "
         "bytes; every local creation is on the remote; every version a user wrote and no user destroyed still exists somewhere (so an un-request uploaded newer local bytes first); the merged listing of "
